@@ -74,7 +74,7 @@ def Extremal (cmp : K → K → Int) (m : Map K V) (k : K) : Prop :=
 
 /-- number of held indices below `cap` -/
 def card (cap : Nat) (m : Map K V) : Nat :=
-  ((List.range cap).filter fun i => (m (i : Int)).isSome).length
+  ((List.range cap).filter fun (i : Nat) => (m (i : Int)).isSome).length
 
 /-- one admissible step; `P m k` is the demand on the key returned by `Peek`/`Delete` -/
 inductive AdmitG (P : Map K V → K → Prop) (cmp : K → K → Int) (eq : V → V → Bool) (cap : Nat) :
